@@ -14,6 +14,7 @@ FIN = re.compile(r"^\r  tick   \[ complete - (-?\d+) steps taken in (-?\d+):(-?\
 CNT = re.compile(r"^\r  tick   \[ (-?\d+) steps taken, time remaining: (-?\d+):(-?\d+):(-?\d+) \]\s*$")
 PTP = re.compile(r"^\r  \[ Running ParallelTempering - (-?\d+)% complete   ETA: (-?\d+) sec \]\s*$")
 PTD = re.compile(r"^\r  \[ Running ParallelTempering - complete! \]\s*$")
+PTC = re.compile(r"^\r  \[ Running ParallelTempering - time remaining: (-?\d+):(-?\d+):(-?\d+) \]\s*$")
 ITR = re.compile(r"^\r  EnsembleSampler:   \[ (\d+) / (\d+) iterations completed(?:  \|  ETA: (-?\d+) sec)? \]\s*$")
 
 
@@ -42,6 +43,11 @@ class Capture:
             return len(s)
         if PTD.match(s):
             self.ev.append({"ev": "PtDone", "cyc": self.done()[0], "steps": self.done()[1], "t": self.ms(), "text": s.strip()})
+            return len(s)
+        m = PTC.match(s)
+        if m:
+            g = [max(-2 ** 18, min(2 ** 18, int(v))) for v in m.groups()]
+            self.ev.append({"ev": "PtCount", "h": g[0], "mi": g[1], "s": g[2], "cyc": self.done()[0], "t": self.ms(), "text": s.strip()})
             return len(s)
         m = PTP.match(s)
         if m:
@@ -181,7 +187,10 @@ def run(tier):
         import inference.mcmc.parallel as par
         from inference.mcmc import GibbsChain
         real_par_time = par.time
-        for n_adv, si in ((23, 5), (7, 10), (161, 3), (250, 5), (100, 2)) + (((534, 10), (53, 1)) if tier == "thorough" else ()):
+        pt_calls = [("pt_advance", n, si) for n, si in ((23, 5), (7, 10), (161, 3), (250, 5), (100, 2)) + (((534, 10), (53, 1)) if tier == "thorough" else ())]
+        # ParallelTempering.run_for: budget in simulated milliseconds (6 s, 3 s, 0 s, 1.2 s; more at the thorough tier)
+        pt_calls += [("pt_run_for", b, si) for b, si in ((6000, 5), (3000, 7), (0, 5), (1200, 11)) + (((9000, 3), (4020, 13)) if tier == "thorough" else ())]
+        for pt_call, n_adv, si in pt_calls:
             clock = Clock()
             par.time = clock
             chains = [GibbsChain(posterior=_quad, start=np.array([0.1 * (i + 1), 0.2]), widths=np.array([0.5, 0.5]),
@@ -199,11 +208,14 @@ def run(tier):
                 real_swap()
                 cnt["cyc"] += 1
             pt.take_steps, pt.swap = take, swp
-            ev = [{"ev": "Begin", "call": "pt_advance", "m": n_adv, "si": si, "display": True, "t": 0}]
+            ev = [{"ev": "Begin", "call": pt_call, "m": n_adv, "si": si, "cms": 3 * si, "display": True, "t": 0}]
             sys.stdout = Capture(clock, lambda cnt=cnt: (cnt["cyc"], cnt["steps"]), clock.t, ev)
             err = None
             try:
-                pt.advance(n_adv, swap_interval=si)
+                if pt_call == "pt_advance":
+                    pt.advance(n_adv, swap_interval=si)
+                else:
+                    pt.run_for(minutes=n_adv / 60000.0, swap_interval=si)
             except Exception as ex:
                 err = repr(ex)
             sys.stdout = real[3]
@@ -216,8 +228,9 @@ def run(tier):
             pt.shutdown()
             par.time = real_par_time
             ev.append({"ev": "End", "added": added})
-            ck.case(("pt_advance", n_adv, si))
-            ident = {"call": "ParallelTempering.advance(%d, swap_interval=%d)" % (n_adv, si)}
+            ck.case((pt_call, n_adv, si))
+            ident = {"call": "ParallelTempering.advance(%d, swap_interval=%d)" % (n_adv, si) if pt_call == "pt_advance"
+                     else "ParallelTempering.run_for(minutes=%g, swap_interval=%d)" % (n_adv / 60000.0, si), "simulated_ms_per_cycle": 3 * si}
             if err:
                 ck.violation("ParallelTempering.advance raised", {**ident, "error": err}, site="ParallelTempering.advance")
                 continue
@@ -237,7 +250,7 @@ def run(tier):
     ck.tlc(rt, "progress_traces")
     ck.traces += len(runs)
     ck.count("progress_traces", "events", len(events))
-    ck.count("progress_traces", "messages", sum(1 for e in events if e["ev"] in ("Pct", "Final", "Count", "Iter", "PtPct", "PtDone")))
+    ck.count("progress_traces", "messages", sum(1 for e in events if e["ev"] in ("Pct", "Final", "Count", "Iter", "PtPct", "PtDone", "PtCount")))
     bad = sorted({int(m.group(1)) - 1 for x in rt.raw_printed for m in [re.match(r'<<"BAD", (\d+)>>', x)] if m})
     for i in bad[:40]:
         ident = next((r[2] for r in runs if r[0] <= i < r[1]), {})
